@@ -1,14 +1,54 @@
-"""Concretisation and native replay of counter-examples (DESIGN.md 2.7).  Per-function
-replayers search for a concrete failing input of the *real* code, guided by the failed clause."""
-import json, os
+"""Concretisation and native replay of refuted obligations (DESIGN.md 2.7/2.8): the failing
+clause is searched for on executions of the *real* function with the run-time twin."""
+import json, os, subprocess, sys, tempfile
+
+ROOT = os.path.dirname(os.path.dirname(os.path.abspath(__file__)))
 
 
-REPLAYERS = {}
+def contract_spec(c):
+    return dict(requires=list(c.requires) + list(c.free_requires), ensures=list(c.ensures),
+                raises={k: list(v) for k, v in c.raises.items()}, returns=c.returns)
+
+
+def run_twin(function, contract, seed=0, budget=400, want=None, timeout=120):
+    from pyvc import extract
+    spec = dict(function=function, contract=contract_spec(contract), seed=seed, budget=budget, want=want)
+    fd, fn = tempfile.mkstemp(suffix='.json', prefix='pyvc_twin_')
+    with os.fdopen(fd, 'w') as f:
+        json.dump(spec, f)
+    env = dict(os.environ)
+    env['PYTHONPATH'] = extract.REPO + os.pathsep + ROOT
+    env['PYTHONDONTWRITEBYTECODE'] = '1'
+    try:
+        p = subprocess.run([sys.executable, '-m', 'pyvc.twin', fn], cwd=ROOT, env=env, capture_output=True,
+                           text=True, timeout=timeout)
+        out = p.stdout.strip().splitlines()
+        if not out:
+            return dict(error='twin produced no output: ' + p.stderr[-2000:])
+        return json.loads(out[-1])
+    except subprocess.TimeoutExpired:
+        return dict(error='twin timeout')
+    except Exception as e:
+        return dict(error='twin failed: %r' % (e,))
+    finally:
+        try:
+            os.unlink(fn)
+        except OSError:
+            pass
 
 
 def try_replay(pid, violation, seed=0):
+    from pyvc.check import load_contracts
     fn = violation.get('function', '')
-    r = REPLAYERS.get(fn)
-    if r is None:
-        return dict(reproduced=False, note='no replayer for %s; the refuted obligation and solver output are in this file' % fn)
-    return r(violation, seed)
+    contracts = load_contracts()
+    c = contracts.get(fn)
+    if c is None:
+        return dict(reproduced=False, note='no contract object for %s' % fn)
+    r = run_twin(fn, c, seed=seed, budget=3000, want=violation.get('clause'))
+    if r.get('error'):
+        return dict(reproduced=False, note=r['error'])
+    if r.get('found'):
+        return dict(reproduced=True, function=fn, failing_input=r['found'], valid_cases=r.get('valid_cases'),
+                    note='clause evaluated to False on an execution of the real function')
+    return dict(reproduced=False, valid_cases=r.get('valid_cases'), outcomes=r.get('outcomes'),
+                note='clause did not fail on %s executions of the real function (bounded search)' % r.get('valid_cases'))
